@@ -319,6 +319,7 @@ class MQTTProtocol(MQTTBaseProtocol):
             reply.interval = Interval(initial=self._initialT)
             reply.deferred = request.deferred       # Transfer the deferred to PUBREL
             reply.retries  = request.retries        # and the retry count
+            reply.protocol = request.protocol
             reply.encode()
             self.factory.windowPubRelease[self.addr][reply.msgId] = reply
             self._retryRelease(reply, False)
@@ -351,10 +352,13 @@ class MQTTProtocol(MQTTBaseProtocol):
         '''
         Called when a CONNACK has been received (publisher only).
         '''
+        # Requests made on this very connection before its CONNACK
+        # are not part of the session being cleared or resumed.
         if self._cleanStart:
-            self._purgeSession(MQTTSessionCleared())
+            self._purgeSession(MQTTSessionCleared(), carriedOver=True)
         else:
             self._syncSession()
+        self._refillPublish(dup=False)
         if self.onMqttConnectionMade:
             self.onMqttConnectionMade()
 
@@ -430,6 +434,7 @@ class MQTTProtocol(MQTTBaseProtocol):
             request.msgId    = None
             request.deferred = defer.succeed(None)
             request.interval = None
+            request.protocol = self
         else:
             request.msgId    = self.factory.makeId()
             request.deferred = defer.Deferred()
@@ -437,6 +442,7 @@ class MQTTProtocol(MQTTBaseProtocol):
                                               bandwith=self._bandwith, 
                                               factor=self._factor)
             request.retries  = 0
+            request.protocol = self     # the connection this request was made on
         try:
             request.encode()
         except Exception as e:
@@ -613,30 +619,39 @@ class MQTTProtocol(MQTTBaseProtocol):
         '''
         #log.debug("{event}", event="Sync Persistent Session")
         for _, reply in self.factory.windowPubRelease[self.addr].items():
-            self._retryRelease(reply, dup=True)
+            if reply.protocol is not self:
+                self._retryRelease(reply, dup=True)
         for _, request in self.factory.windowPublish[self.addr].items():
-            self._retryPublish(request, dup=True)
+            if request.protocol is not self:
+                self._retryPublish(request, dup=True)
 
     # --------------------------------------------------------------------------
 
-    def _purgeSession(self, reason):
+    def _purgeSession(self, reason, carriedOver=False):
         '''
-        Purges the persistent state in the client 
+        Purges the persistent state in the client.
+        With carriedOver=True, only what earlier connections left behind.
         '''
         #log.debug("{event}", event="Clean Persistent Session")
         for k in list(self.factory.windowPublish[self.addr]):
             request = self.factory.windowPublish[self.addr][k]
+            if carriedOver and request.protocol is self:
+                continue
             del self.factory.windowPublish[self.addr][k]
             request.deferred.errback(reason)
 
         for k in list(self.factory.windowPubRelease[self.addr]):
             request = self.factory.windowPubRelease[self.addr][k]
+            if carriedOver and request.protocol is self:
+                continue
             del self.factory.windowPubRelease[self.addr][k]
             request.deferred.errback(reason)
 
         # messages still held back in the queue belong to the session too
         queue = self.factory.queuePublishTx[self.addr]
         for request in list(queue):
+            if carriedOver and request.protocol is self:
+                continue
             queue.remove(request)
             if request.msgId:   # QoS 0 deferreds have already fired
                 request.deferred.errback(reason)
